@@ -265,6 +265,17 @@ class Gen(object):
                 obj.update(subtype=self.ch([1, 2]))
             elif ot == 8:
                 obj.update(subtype=0x80000000)
+            if self.p(0.12):
+                # an object the pie classes refuse (inconsistent length, format the class does not list, PGP cert)
+                if ot == 2:
+                    if self.p(0.5):
+                        obj["len"] = self.ch([obj["len"] + 8, 0, 256, 64])
+                    else:
+                        obj["format"] = self.ch([2, 3, 5, 7])
+                elif ot in (3, 4):
+                    obj["format"] = self.ch([1, 2, 3, 4, 5, 6])
+                elif ot == 1:
+                    obj["subtype"] = 2
             must = ("Cryptographic Usage Mask",) if ot != 8 else ()
             if ot in (2, 3, 4, 5) and self.p(0.2):
                 must = must + ("Cryptographic Algorithm", "Cryptographic Length")
@@ -276,7 +287,7 @@ class Gen(object):
             n = self.ch([16, 32, 16, 8])
             must = ("Cryptographic Length",) + (("Cryptographic Algorithm",) if ot == 2 or self.p(0.2) else ()) \
                 + (("Cryptographic Usage Mask",) if self.p(0.8) else ())
-            t = self.template(must=must, alg=3, length=n * 8)
+            t = self.template(must=must, alg=3, length=n * 8 if self.p(0.93) else self.ch([0, -8, -64, 12, -3]))
             it.update(otype=ot, uids=[self.uid(False) for _ in range(self.ch([1, 1, 1, 2, 0]))], tmpl=t)
             x = r.random()
             if x < 0.85:
